@@ -43,6 +43,8 @@ def expr(e, self_, oth):
         return "(ENot %s)" % expr(e.operand, self_, oth)
     if isinstance(e, ast.Constant) and isinstance(e.value, bool):
         return "(EBool %s)" % str(e.value).lower()
+    if isinstance(e, ast.IfExp):
+        return "(EIf %s %s %s)" % (expr(e.test, self_, oth), expr(e.body, self_, oth), expr(e.orelse, self_, oth))
     raise Reject("expression outside grammar: " + ast.unparse(e))
 
 
@@ -53,7 +55,10 @@ def method(fn):
     self_, oth = args
     body = [s for s in fn.body if not (isinstance(s, ast.Expr) and isinstance(s.value, ast.Constant))]
     guard = None
-    if len(body) == 2:
+    def is_guard_shape(g):
+        return (isinstance(g, ast.If) and len(g.body) == 1 and isinstance(g.body[0], ast.Return)
+                and isinstance(g.body[0].value, ast.Name) and g.body[0].value.id == "NotImplemented")
+    if len(body) >= 2 and is_guard_shape(body[0]):
         g = body[0]
         ok = (isinstance(g, ast.If) and not g.orelse and len(g.body) == 1 and isinstance(g.body[0], ast.Return)
               and isinstance(g.body[0].value, ast.Name) and g.body[0].value.id == "NotImplemented"
@@ -66,9 +71,34 @@ def method(fn):
             raise Reject("guard outside grammar in %s: %s" % (fn.name, ast.unparse(g)))
         guard = g.test.operand.args[1].id
         body = body[1:]
-    if len(body) != 1 or not isinstance(body[0], ast.Return) or body[0].value is None:
-        raise Reject("body outside grammar in " + fn.name)
-    return "{| m_guard := %s; m_body := %s |}" % ("Some %s" % q(guard) if guard else "None", expr(body[0].value, self_, oth))
+    return "{| m_guard := %s; m_body := %s |}" % ("Some %s" % q(guard) if guard else "None", block(body, fn.name, self_, oth))
+
+
+def block(body, name, self_, oth):
+    """a statement list in which every path ends in 'return <expr>':  [return e]  |  [if c: <block> (else: <block>)?] ++ <block>.
+    'if c: B1' followed by the rest R is EIf c B1 R because B1 always returns (checked by translating it as a block);
+    the condition's truth value is taken by bool_of (a non-bool result is Unsupported in the model: fail-closed)."""
+    if not body:
+        raise Reject("a path without return in " + name)
+    s = body[0]
+    if isinstance(s, ast.Return) and s.value is not None:
+        return expr(s.value, self_, oth)        # statements after a return are dead code
+    if isinstance(s, ast.If):
+        then = block(s.body, name, self_, oth)
+        rest = block(list(s.orelse) + body[1:], name, self_, oth) if not _always_returns(s.orelse) or not body[1:] else block(s.orelse, name, self_, oth)
+        return "(EIf %s %s %s)" % (expr(s.test, self_, oth), then, rest)
+    raise Reject("body outside grammar in %s: %s" % (name, ast.unparse(s)[:80]))
+
+
+def _always_returns(stmts):
+    if not stmts:
+        return False
+    s = stmts[0]
+    if isinstance(s, ast.Return):
+        return True
+    if isinstance(s, ast.If):
+        return (_always_returns(s.body) and _always_returns(s.orelse)) or _always_returns(stmts[1:])
+    return False
 
 
 def repr_parts(fn):
